@@ -33,7 +33,8 @@ All == 1..Len(rows)
 Sum(T, f(_)) == FoldSet(LAMBDA i, acc : acc + f(i), 0, T)
 Wt(uw, i) == IF uw THEN Wof(rows[i]) ELSE 1
 
-Metrics == <<"sel", "tpr", "fpr", "fnr", "tnr", "acc", "prec", "zol", "smean", "precn">>
+Metrics == <<"sel", "tpr", "fpr", "fnr", "tnr", "acc", "prec", "zol", "smean", "precn", "tpc">>
+\* "tpc" is integer valued (the by_group column of an all-integer frame has an integer dtype)
 \* "precn" can be undefined (NaN) on a non-empty group; NaN cells are skipped by every aggregate exactly like empty combinations
 \* "smean" is a SIGNED metric: the weighted mean of the per-row score (2*pred - 1) * (1 + y) in {-2, -1, 1, 2}
 NonNegMetrics == {"sel", "tpr", "fpr", "fnr", "tnr", "acc", "prec", "zol"}
@@ -56,6 +57,7 @@ MetricOn(m, T, uw) ==
        [] m = "prec" -> R0(tp, tp + fp)
        [] m = "zol"  -> Frac(fp + fn, tp + fn + fp + tn)
        [] m = "smean" -> Frac(2 * tp + fp - 2 * fn - tn, tp + fn + fp + tn)
+       [] m = "tpc"   -> OfInt(Cardinality({i \in T : Yof(rows[i]) = 1 /\ Pof(rows[i]) = 1}))          \* an INTEGER-valued metric: the number of true positives
        [] m = "precn" -> IF tp + fp = 0 THEN Undef ELSE Frac(tp, tp + fp)       \* precision, UNDEFINED (NaN) without predicted positives
 
 Strata == {c \in 1..S : \E i \in All : Cof(rows[i]) = c}         \* observed control values
